@@ -33,10 +33,11 @@ End val_ind'.
 
 Section instr_ind'.
   Variable P : instr -> Prop.
-  Hypothesis Hbase : forall i, (forall a b, i <> IF_NONE a b) -> (forall a b, i <> IF_CONS a b) -> (forall a, i <> ITER a) -> P i.
+  Hypothesis Hbase : forall i, (forall a b, i <> IF_NONE a b) -> (forall a b, i <> IF_CONS a b) -> (forall a, i <> ITER a) -> (forall a, i <> MAP a) -> P i.
   Hypothesis Hifnone : forall a b, Forall P a -> Forall P b -> P (IF_NONE a b).
   Hypothesis Hifcons : forall a b, Forall P a -> Forall P b -> P (IF_CONS a b).
   Hypothesis Hiter : forall a, Forall P a -> P (ITER a).
+  Hypothesis Hmap : forall a, Forall P a -> P (MAP a).
   Fixpoint instr_ind' (i : instr) : P i.
   Proof.
     pose (go := fix go (l : list instr) : Forall P l :=
@@ -49,6 +50,7 @@ Section instr_ind'.
     - apply Hifnone; apply go.
     - apply Hifcons; apply go.
     - apply Hiter; apply go.
+    - apply Hmap; apply go.
   Defined.
 End instr_ind'.
 
@@ -349,10 +351,11 @@ Ltac mass_facts k :=
          end; intros.
 
 Lemma step_base_preserves i :
-  (forall a b, i <> IF_NONE a b) -> (forall a b, i <> IF_CONS a b) -> (forall a, i <> ITER a) -> preserves (step i).
+  (forall a b, i <> IF_NONE a b) -> (forall a b, i <> IF_CONS a b) -> (forall a, i <> ITER a) -> (forall a, i <> MAP a) -> preserves (step i).
 Proof.
-  intros N1 N2 N3.
-  destruct i; try (exfalso; eapply N1; reflexivity); try (exfalso; eapply N2; reflexivity); try (exfalso; eapply N3; reflexivity).
+  intros N1 N2 N3 N4.
+  destruct i; try (exfalso; eapply N1; reflexivity); try (exfalso; eapply N2; reflexivity); try (exfalso; eapply N3; reflexivity);
+    try (exfalso; eapply N4; reflexivity).
   1-4: first [ exact TICKET_preserves | exact READ_TICKET_preserves | exact SPLIT_TICKET_preserves | exact JOIN_TICKETS_preserves ].
   all: intros [sf stk0 m] st' Hok H; cbn [step stk] in H.
   all: destruct_matches H.
@@ -381,9 +384,80 @@ Proof.
     intros k. specialize (Hle1 k). specialize (Hle' k). unfold with_stk in Hle1. cbn [stk minted stack_mass] in *. lia.
 Qed.
 
+Lemma stack_mass_app k a b : stack_mass k (a ++ b) = stack_mass k a + stack_mass k b.
+Proof. induction a as [|x r IH]; [reflexivity|]. cbn [app stack_mass]. rewrite IH. lia. Qed.
+
+Lemma map_with_preserves (stp : instr -> state -> result state) body :
+  Forall (fun i => preserves (stp i)) body ->
+  forall l st acc st' items, ok_stack (stk st) = true -> forallb wt l = true -> forallb tickets_pos l = true ->
+    forallb wt acc = true -> forallb tickets_pos acc = true ->
+    map_with stp body l st acc = Ok (st', items) ->
+    ok_stack (stk st') = true /\ forallb wt items = true /\ forallb tickets_pos items = true /\
+    forall k, stack_mass k (stk st') + stack_mass k items + ledger_sum k (minted st)
+              <= stack_mass k (stk st) + stack_mass k acc + stack_mass k l + ledger_sum k (minted st')
+              /\ ledger_sum k (minted st) <= ledger_sum k (minted st').
+Proof.
+  intros Hbody. induction l as [|x r IH]; intros st acc st' items Hok Hw Hp Haw Hap H; cbn [map_with] in H.
+  - injection H as <- <-. repeat split; try assumption; cbn [stack_mass]; lia.
+  - cbn [forallb] in Hw, Hp. apply andb_prop in Hw, Hp. destruct Hw as [Hw1 Hw2], Hp as [Hp1 Hp2].
+    destruct (run_with stp body (with_stk st (x :: stk st))) as [st1|] eqn:E; [|discriminate].
+    assert (Hok0 : ok_stack (stk (with_stk st (x :: stk st))) = true).
+    { unfold ok_stack, wt_stack, stack_pos, with_stk in *. cbn [stk forallb]. apply andb_prop in Hok. destruct Hok as [O1 O2].
+      rewrite Hw1, Hp1, O1, O2. reflexivity. }
+    destruct (run_with_preserves stp body Hbody _ st1 Hok0 E) as [Hok1 Hle1].
+    destruct (stk st1) as [|y s'] eqn:Es; [discriminate|].
+    assert (Hy : wt y = true /\ tickets_pos y = true /\ ok_stack s' = true).
+    { unfold ok_stack, wt_stack, stack_pos in *. cbn [forallb] in Hok1. apply andb_prop in Hok1. destruct Hok1 as [O1 O2].
+      apply andb_prop in O1, O2. destruct O1 as [A1 A2], O2 as [B1 B2]. rewrite A2, B2. repeat split; assumption. }
+    destruct Hy as (Hyw & Hyp & Hs').
+    assert (Haw2 : forallb wt (acc ++ [y]) = true) by (rewrite forallb_app, Haw; cbn [forallb]; rewrite Hyw; reflexivity).
+    assert (Hap2 : forallb tickets_pos (acc ++ [y]) = true) by (rewrite forallb_app, Hap; cbn [forallb]; rewrite Hyp; reflexivity).
+    destruct (IH (with_stk st1 s') (acc ++ [y]) st' items Hs' Hw2 Hp2 Haw2 Hap2 H) as (R1 & R2 & R3 & R4).
+    repeat split; try assumption.
+    + specialize (R4 k). specialize (Hle1 k). rewrite stack_mass_app in R4. unfold with_stk in *.
+      cbn [stk minted stack_mass] in *. rewrite Es in Hle1. cbn [stack_mass] in Hle1. clear - R4 Hle1. lia.
+    + specialize (R4 k). specialize (Hle1 k). unfold with_stk in *. cbn [stk minted] in *. clear - R4 Hle1. lia.
+Qed.
+
+Lemma ty_eqb_refl t : ty_eqb t t = true.
+Proof. apply ty_eqb_eq. reflexivity. Qed.
+
+Lemma list_from_items_facts t items v k :
+  forallb wt items = true -> list_from_items t items = Ok v ->
+  wt v = true /\ tickets_pos v = forallb tickets_pos items /\ mass k v = stack_mass k items.
+Proof.
+  intros Hw H. destruct items as [|x r]; cbn [list_from_items] in H.
+  - injection H as <-. repeat split.
+  - destruct (forallb (fun y => ty_eqb (type_of x) (type_of y)) r) eqn:E; [|discriminate]. injection H as <-.
+    rewrite wt_list, pos_list, mass_list. repeat split.
+    cbn [forallb] in *. apply andb_prop in Hw. destruct Hw as [Hx Hr]. rewrite ty_eqb_refl, Hx. cbn [andb].
+    clear Hx. induction r as [|y r' IHr]; [reflexivity|]. cbn [forallb] in *.
+    apply andb_prop in E, Hr. destruct E as [E1 E2], Hr as [Hr1 Hr2]. rewrite E1, Hr1, (IHr Hr2 E2). reflexivity.
+Qed.
+
 Theorem step_preserves i : preserves (step i).
 Proof.
-  induction i as [i N1 N2 N3 | bt bf IHt IHf | bt bf IHt IHf | body IHb] using instr_ind'.
+  induction i as [i N1 N2 N3 N4 | bt bf IHt IHf | bt bf IHt IHf | body IHb | body IHb] using instr_ind'.
+  5: {
+    intros [sf s m] st' Hok H. cbn [step stk] in H.
+    destruct s as [|x s]; [discriminate|]. destruct x; try discriminate.
+    assert (Hparts : ok_stack s = true /\ forallb wt l = true /\ forallb tickets_pos l = true).
+    { unfold ok_stack, wt_stack, stack_pos in *. cbn [stk forallb] in Hok.
+      apply andb_prop in Hok. destruct Hok as [O1 O2]. apply andb_prop in O1, O2.
+      destruct O1 as [W1 W2], O2 as [P1 P2]. rewrite W2, P2. rewrite pos_list in P1.
+      split; [reflexivity|]. split; [apply (wt_list_forall t l W1) | exact P1]. }
+    destruct Hparts as (Hs & Hw & Hp).
+    destruct (map_with step body l (with_stk {| self := sf; stk := VList t l :: s; minted := m |} s) []) as [[st1 items]|] eqn:E;
+      [|discriminate].
+    destruct (map_with_preserves step body IHb l (with_stk {| self := sf; stk := VList t l :: s; minted := m |} s) [] st1 items Hs Hw Hp eq_refl eq_refl E) as (R1 & R2 & R3 & R4).
+    destruct (list_from_items t items) as [v|] eqn:Ev; [|discriminate]. injection H as <-.
+    split.
+    - destruct (list_from_items_facts t items v (sf, CN 0) R2 Ev) as (F1 & F2 & _).
+      unfold ok_stack, wt_stack, stack_pos, with_stk in *. cbn [stk forallb]. rewrite F1, F2, R3.
+      apply andb_prop in R1. destruct R1 as [A B]. rewrite A, B. reflexivity.
+    - intros k. specialize (R4 k). destruct (list_from_items_facts t items v k R2 Ev) as (_ & _ & F3).
+      unfold with_stk in *. cbn [stk minted stack_mass] in *. rewrite F3, mass_list. lia.
+  }
   4: {
     intros [sf s m] st' Hok H. cbn [step stk] in H.
     destruct s as [|x s]; [discriminate|]. destruct x; try discriminate.
@@ -466,9 +540,30 @@ Proof.
     rewrite (IH st1 st' H). apply (run_with_keeps stp body Hb Hno) in E. exact E.
 Qed.
 
+Lemma map_with_keeps (stp : instr -> state -> result state) body :
+  Forall (fun i => has_ticket_instr i = false -> keeps_ledger (stp i)) body ->
+  existsb has_ticket_instr body = false ->
+  forall l st acc st' items, map_with stp body l st acc = Ok (st', items) -> minted st' = minted st.
+Proof.
+  intros Hb Hno. induction l as [|x r IH]; intros st acc st' items H; cbn [map_with] in H.
+  - injection H as <- _. reflexivity.
+  - destruct (run_with stp body (with_stk st (x :: stk st))) as [st1|] eqn:E; [|discriminate].
+    destruct (stk st1) as [|y s']; [discriminate|].
+    rewrite (IH _ _ st' items H). apply (run_with_keeps stp body Hb Hno) in E. exact E.
+Qed.
+
 Theorem step_keeps_ledger i : has_ticket_instr i = false -> keeps_ledger (step i).
 Proof.
-  induction i as [i N1 N2 N3 | bt bf IHt IHf | bt bf IHt IHf | body IHb] using instr_ind'; intros Hno.
+  induction i as [i N1 N2 N3 N4 | bt bf IHt IHf | bt bf IHt IHf | body IHb | body IHb] using instr_ind'; intros Hno.
+  5: {
+    cbn [has_ticket_instr] in Hno. rewrite existsb_fix in Hno.
+    intros [sf s m] st' H. cbn [step stk] in H.
+    destruct s as [|x s]; [discriminate|]. destruct x; try discriminate.
+    destruct (map_with step body l (with_stk {| self := sf; stk := VList t l :: s; minted := m |} s) []) as [[st1 items]|] eqn:E;
+      [|discriminate].
+    destruct (list_from_items t items) as [v|]; [|discriminate]. injection H as <-.
+    apply (map_with_keeps step body IHb Hno) in E. exact E.
+  }
   4: {
     cbn [has_ticket_instr] in Hno. rewrite existsb_fix in Hno.
     intros [sf s m] st' H. cbn [step stk] in H.
@@ -477,7 +572,7 @@ Proof.
     - apply (iter_with_keeps step body IHb Hno) in H. exact H.
   }
   - intros [sf s m] st' H.
-    destruct i; try discriminate Hno; try (exfalso; eapply N1; reflexivity); try (exfalso; eapply N2; reflexivity); try (exfalso; eapply N3; reflexivity);
+    destruct i; try discriminate Hno; try (exfalso; eapply N1; reflexivity); try (exfalso; eapply N2; reflexivity); try (exfalso; eapply N3; reflexivity); try (exfalso; eapply N4; reflexivity);
       cbn [step stk] in H; destruct_matches H; injection H as <-; reflexivity.
   - cbn [has_ticket_instr] in Hno. rewrite !existsb_fix in Hno. apply orb_false_elim in Hno. destruct Hno as [H1 H2].
     intros [sf s m] st' H. cbn [step stk] in H.
